@@ -282,6 +282,7 @@ impl GrammarBuilder {
             for (prod_ntidx, production) in rule.rhs.into_iter().enumerate() {
                 let prod_ntidx = ntidx_base + prod_ntidx;
                 let mut desugar_productions: Vec<Production> = vec![];
+                let mut assign_names = BTreeSet::new();
                 let prod_idx = self.get_prod_idx();
 
                 let mut new_production = Production {
@@ -309,6 +310,18 @@ impl GrammarBuilder {
                             match assignment {
                                 PlainAssignment(mut assign) | BoolAssignment(mut assign) => {
                                     self.check_identifier(&assign.name)?;
+                                    // Assignment names are the fields of
+                                    // the production's AST type.
+                                    if !assign_names.insert(assign.name.as_ref().clone()) {
+                                        err!(
+                                            format!(
+                                                "Assignment name '{}' is used more than once in a production of the rule '{}'.",
+                                                assign.name, rule.name
+                                            ),
+                                            Some(self.file.clone()),
+                                            assign.name.span
+                                        )?
+                                    }
                                     self.desugar_regex(
                                         &mut assign.gsymref,
                                         &mut desugar_productions,
